@@ -21,6 +21,7 @@ FAMILIES = [
     ("sparse", "S", "node:2(indexes=3,1) pu:2", ""),
     ("hetero", "S", "pack:2 [numa] group:2 [numa] [numa] pu:2", ""),
     ("groups3", "S", "group:2 node:2 group:2 pu:2", ""),
+    ("nrestrict", "S", "node:3 core:2 pu:2", "n0x5"),
 ]
 QUICK_FAMILIES = ["sym", "nested", "asym", "cpuless", "io", "perm", "sparse", "group"]
 ENV = {"ASAN_OPTIONS": "abort_on_error=1:detect_leaks=0:allocator_may_return_null=1", "UBSAN_OPTIONS": "abort_on_error=1:print_stacktrace=1",
